@@ -59,6 +59,10 @@ def _unbound(pid, v):
     co = (v["clause"], v["outcome"])
     if co in (("build-failed", "AttributeError"), ("library-made-error", "AttributeError"), ("name-unresolved", "static")):
         return True
+    # decoding the VALID document fails too for the kinds that are converted through their dotted name; dataclasses are
+    # bound by object on that path, so for them this clause is NOT part of the finding
+    if co == ("library-made-error-on-valid-input", "AttributeError") and f.get("kind") not in ("make_dataclass", "make_dataclass_mixin"):
+        return True
     if f.get("shape") in ("union_int", "union_first") and co in (("not-the-annotated-class", "type"), ("roundtrip-raised", "ValueError")):
         return True
     return False
